@@ -179,6 +179,13 @@ func FuncBuilder(env *Zlisp, name string,
 	for i := len(argsyms) - 1; i >= 0; i-- {
 		gen.AddInstruction(PopStackPutEnvInstr{argsyms[i]})
 	}
+	// as buildSexpFun does for defn: make the function being built
+	// known under its name, so that the arity check of a self tail
+	// call sees this definition, not an earlier function of the same
+	// name (or none at all).
+	known := env.MakeFunction(funcName, nargs, varargs, nil, orig)
+	known.inputTypes = inHash
+	gen.knownFunctions[symN.number] = known
 	err = gen.GenerateBegin(body)
 	if err != nil {
 		return MissingFunction, err
